@@ -2,6 +2,7 @@ package props
 
 import (
 	"fmt"
+	"sync"
 
 	"astverif/layout"
 	"astverif/lin"
@@ -27,7 +28,7 @@ func escrSpec(c *layout.Checker) []*layout.Source {
 
 // pesOptionalSpec enumerates the optional fields: PTS_DTS_flags ∈ {00, 10, 11}, ESCR, ES_rate, additional copy info,
 // previous_PES_packet_CRC, and the extension with private data, sequence counter, P-STD buffer and extension 2.
-// (DSM trick mode is covered by A3 for all its classes; pack_header_field is not supported by the parser — it reads
+// DSM trick mode has its own instances at the end (one per trick_mode_control value). (pack_header_field is not supported by the parser — it reads
 // the length byte only, which the source says itself — and is left out.)
 func pesOptionalSpec(c *layout.Checker) []*layout.Source {
 	var out []*layout.Source
@@ -92,6 +93,105 @@ func pesOptionalSpec(c *layout.Checker) []*layout.Source {
 			}
 		}
 	}
+	// DSM_trick_mode (table 2-21, 2.4.3.7): trick_mode_control(3) followed by a 5-bit body that depends on it. One
+	// instance per value of trick_mode_control, on the header with no other optional field and with PTS + ES_rate +
+	// additional_copy_info around it (the byte sits between ES_rate and additional_copy_info).
+	for _, around := range []bool{false, true} {
+		for ctl := int64(0); ctl < 8; ctl++ {
+			b := c.NewSpec(fmt.Sprintf("PES optional header with DSM trick mode, trick_mode_control=%d, neighbours=%v", ctl, around))
+			b.Const(2, 2).Field(2, h+".ScramblingControl").Flag(h + ".Priority").Flag(h + ".DataAlignmentIndicator").Flag(h + ".IsCopyrighted").Flag(h + ".IsOriginal")
+			pd := int64(0)
+			if around {
+				pd = 2
+			}
+			b.Field(2, h+".PTSDTSIndicator").Fix(h+".PTSDTSIndicator", pd)
+			b.FlagIs(h+".HasESCR", false).FlagIs(h+".HasESRate", around).FlagIs(h+".HasDSMTrickMode", true)
+			b.FlagIs(h+".HasAdditionalCopyInfo", around).FlagIs(h+".HasCRC", false).FlagIs(h+".HasExtension", false)
+			b.LengthOfRest(8) // PES_header_data_length
+			if around {
+				b.Const(4, 2)
+				timestamp33(b, h+"/PTS.Base")
+				b.Const(1, 1).Field(22, h+".ESRate").Const(1, 1)
+			}
+			m := h + "/DSMTrickMode"
+			b.Field(3, m+".TrickModeControl").Fix(m+".TrickModeControl", ctl)
+			switch ctl {
+			case 0, 3: // fast_forward, fast_reverse
+				b.Field(2, m+".FieldID").Field(1, m+".IntraSliceRefresh").Field(2, m+".FrequencyTruncation")
+			case 1, 4: // slow_motion, slow_reverse
+				b.Field(5, m+".RepeatControl")
+			case 2: // freeze_frame
+				b.Field(2, m+".FieldID").Const(3, 7)
+			default:
+				b.Const(5, 31) // reserved
+			}
+			if around {
+				b.Const(1, 1).Field(7, h+".AdditionalCopyInfo")
+			}
+			out = append(out, b.Source())
+		}
+	}
+	return out
+}
+
+// pesDataSpec: PES_packet() of 2.4.3.6 as a whole — packet_start_code_prefix, stream_id, PES_packet_length, the optional
+// header (here without optional fields, with 0 or 2 stuffing bytes) and the payload. PES_packet_length is either the
+// number of bytes that follow it or 0 (unbounded: the payload runs to the end of the unit). With a non-zero length the
+// unit may hold more bytes than the packet: they are not part of the payload.
+type pesDataInst struct {
+	bounded, opt       bool
+	stuffing, trailing int
+}
+
+var pesDataInsts sync.Map // *layout.Source -> pesDataInst
+
+func pesDataSpec(c *layout.Checker) []*layout.Source {
+	var out []*layout.Source
+	for _, sid := range []int64{0xbf, 0xbe, 0xe0, 0xc0, 0xbd} {
+		for _, bounded := range []bool{true, false} {
+			for _, stuffing := range []int{0, 2} {
+				for _, trailing := range []int{0, 3} {
+					opt := sid != 0xbf && sid != 0xbe // private_stream_2 and padding_stream have no optional header
+					if (!opt && stuffing > 0) || (!bounded && trailing > 0) {
+						continue
+					}
+					b := c.NewSpec(fmt.Sprintf("PES packet stream_id=0x%02x bounded=%v stuffing=%d trailing=%d", sid, bounded, stuffing, trailing))
+					b.Const(24, 1).Field(8, "$d/Header.StreamID").Fix("$d/Header.StreamID", sid)
+					if bounded {
+						b.LengthOfRest(16)
+					} else {
+						b.Const(16, 0)
+					}
+					if opt {
+						h := "$d/Header/OptionalHeader"
+						b.Const(2, 2).Field(2, h+".ScramblingControl").Flag(h + ".Priority").Flag(h + ".DataAlignmentIndicator").Flag(h + ".IsCopyrighted").Flag(h + ".IsOriginal")
+						b.Field(2, h+".PTSDTSIndicator").Fix(h+".PTSDTSIndicator", 0)
+						b.FlagIs(h+".HasESCR", false).FlagIs(h+".HasESRate", false).FlagIs(h+".HasDSMTrickMode", false)
+						b.FlagIs(h+".HasAdditionalCopyInfo", false).FlagIs(h+".HasCRC", false).FlagIs(h+".HasExtension", false)
+						b.Const(8, uint64(stuffing)) // PES_header_data_length
+						for k := 0; k < stuffing; k++ {
+							b.Const(8, 0xff) // stuffing_byte
+						}
+					}
+					b.Blob("$d.Data")
+					if bounded {
+						b.EndLength()
+						if !opt {
+							// without optional header PES_packet_length is the payload length: 0 bytes cannot be announced
+							// (0 means unbounded)
+							b.MinLen("$d.Data", 1)
+						}
+					}
+					if trailing > 0 {
+						b.Opaque(8*trailing, "$trailing")
+					}
+					src := b.Source()
+					pesDataInsts.Store(src, pesDataInst{bounded, opt, stuffing, trailing})
+					out = append(out, src)
+				}
+			}
+		}
+	}
 	return out
 }
 
@@ -101,6 +201,31 @@ func c12SpecPairs(c *Ctx) []layout.RTPair {
 		{Name: "spec/pts", Parser: c.fn("parsePTSOrDTS"), Sources: ptsSpec, It: "$i", Root: "$cr", RootPtr: true, MinSources: 1,
 			NotWritten: map[string]string{"Extension": noExt}},
 		{Name: "spec/escr", Parser: c.fn("parseESCR"), Sources: escrSpec, It: "$i", Root: "$cr", RootPtr: true, MinSources: 1},
+		{Name: "spec/pes-data", Parser: c.fn("parsePESData"), Sources: pesDataSpec, It: "$i", Root: "$d", RootPtr: true, MinSources: 20, ExactLen: true,
+			// what follows a bounded packet in the unit is not consumed
+			Consumed: func(src *layout.Source) lin.Form {
+				in, _ := pesDataInsts.Load(src)
+				return layout.ScaleDown8(src.Total).AddC(-int64(in.(pesDataInst).trailing))
+			},
+			Computed: map[string]func(*layout.Source) *lin.Form{
+				"Header.OptionalHeader.MarkerBits": constForm(2),
+				"Header.OptionalHeader.HeaderLength": func(src *layout.Source) *lin.Form {
+					in, _ := pesDataInsts.Load(src)
+					f := lin.Const(int64(in.(pesDataInst).stuffing))
+					return &f
+				},
+				// PES_packet_length: the bytes after it up to the end of the packet, or 0
+				"Header.PacketLength": func(src *layout.Source) *lin.Form {
+					v, _ := pesDataInsts.Load(src)
+					in := v.(pesDataInst)
+					f := lin.Const(0)
+					if in.bounded {
+						f = layout.ScaleDown8(src.Total).AddC(-6 - int64(in.trailing))
+					}
+					return &f
+				},
+			},
+			ElsewherePrefix: "Header.OptionalHeader.", ElsewhereWhy: "the optional fields are decided by spec/pes-optional-header"},
 		{Name: "spec/pes-optional-header", Parser: c.fn("parsePESOptionalHeader"), Sources: pesOptionalSpec, It: "$i", Root: "$h", RootPtr: true, MinSources: 800,
 			Computed: map[string]func(*layout.Source) *lin.Form{
 				"MarkerBits": constForm(2),
@@ -123,12 +248,10 @@ func c12SpecPairs(c *Ctx) []layout.RTPair {
 				},
 			},
 			NotWritten: map[string]string{
-				"PTS.Extension":        noExt,
-				"DTS.Extension":        noExt,
-				"PackField":            "pack_header_field is left out of the reference instances (the parser reads its length byte only, as its source says)",
-				"HasOptionalFields":    "not part of the stream",
-				"DSMTrickMode.FieldID": "DSM trick mode is decided by A3 for all its classes", "DSMTrickMode.FrequencyTruncation": "see FieldID",
-				"DSMTrickMode.IntraSliceRefresh": "see FieldID", "DSMTrickMode.RepeatControl": "see FieldID", "DSMTrickMode.TrickModeControl": "see FieldID",
+				"PTS.Extension":     noExt,
+				"DTS.Extension":     noExt,
+				"PackField":         "pack_header_field is left out of the reference instances (the parser reads its length byte only, as its source says)",
+				"HasOptionalFields": "not part of the stream",
 			},
 		},
 	}
